@@ -14,10 +14,10 @@ from ..drivers import conn as cd
 from . import _conn as K
 
 CLAUSES = ('rollback-owner', 'rollback-value', 'stale', 'dirty-idle', 'serial', 'leftover')
-DEVS = ('AliasCreating', 'SpBlobByName')        # the deviations whose clauses are this property's
+DEVS = ('AliasCreating', 'SpBlobByName', 'ImportNotCreating')        # the deviations whose clauses are this property's
 FOCUS = ('Rollback',)
 NEED = ['Modify', 'Link', 'Unlink', 'AddExplicit', 'Load', 'Savepoint', 'Rollback', 'Begin', 'CommitSp', 'CommitSpConflict',
-        'SavepointRaises', 'CommitSpRaises', 'CommitSpStoreRaises',
+        'SavepointRaises', 'CommitSpRaises', 'CommitSpStoreRaises', 'ImportInTxn',
         'Store', 'Stored', 'Vote', 'Finish', 'Abort', 'OtherCommit']
 
 
@@ -34,12 +34,14 @@ def configs(q):
     # a savepoint() / the savepoint commit() takes first raising part-way (an unpicklable value), then abort
     fail = cd.consts(Obj=('a', 'b'), Edges='EdgesFlat' if q else 'EdgesChain', MaxSp=2, MaxCommit=1, MaxAct=3 if q else 4, MaxTail=1,
                      Ops=('add', 'sp', 'own'))
+    # importFile inside the transaction (its records go to the savepoint store), then rollback / abort / commit
+    imp = cd.consts(Obj=('a', 'b'), Edges='EdgesFlat', MaxSp=2, MaxCommit=1, MaxAct=4 if q else 5, MaxTail=1, Ops=('sp', 'imp'))
     return [('two-savepoints', two), ('repeated-rollback', rep), ('reachability', chain), ('conflict-at-commit', other),
-            ('blobs', blob), ('failing-savepoint', fail)]
+            ('blobs', blob), ('failing-savepoint', fail), ('import', imp)]
 
 
-BUDGET = {'two-savepoints': 26000, 'repeated-rollback': 26000, 'reachability': 24000, 'conflict-at-commit': 24000, 'blobs': 18000,
-          'failing-savepoint': 22000}
+BUDGET = {'two-savepoints': 24000, 'repeated-rollback': 24000, 'reachability': 22000, 'conflict-at-commit': 22000, 'blobs': 16000,
+          'failing-savepoint': 20000, 'import': 16000}
 
 
 def run(ctx):
